@@ -424,14 +424,14 @@ class AddrWireWorld(World):
     def make_config(self, rng, leg, run_index):
         if leg == 'roundtrip':
             acc = [bytes(32), b'\xff' * 32][run_index % 7] if run_index % 7 < 2 else bytes(rng.getrandbits(8) for _ in range(32))
-            return {'wc': run_index - 128, 'acc': acc.hex(), 'leg': leg, 'origin': self.ORIGINS[(run_index // 3) % len(self.ORIGINS)]}
+            return {'wc': run_index - 128, 'acc': acc.hex(), 'leg': leg, 'origin': self.ORIGINS[(run_index // 3) % len(self.ORIGINS)], 'irregular': run_index % 2}
         if leg == 'checksum':
             # the account id's last two bytes are solved so that the friendly form of ONE variant carries a chosen checksum
             return {'wc': rng.choice([-1, 0, 0, -128, 127, rng.randint(-128, 127)]), 'acc': bytes(rng.getrandbits(8) for _ in range(32)).hex(), 'leg': leg, 'variant': rng.randrange(8),
                     'target': rng.choice([0x0000, 0x0000, 0xFFFF, 0x0001, 0x8000, 0x0100, 0x00FF, 0xFF00, 0x0080, rng.getrandbits(8), rng.getrandbits(8) << 8, 0xFBFF, 0xFFEF])}
         if leg == 'crowd':
             return {'wc': rng.choice([-1, 0, 0, -127, 126, rng.randint(-127, 126)]), 'acc': (rng.choice([5, 2 ** 255, 2 ** 256 - 2 ** 62, rng.getrandbits(256) | 2 ** 70]) - 0).to_bytes(32, 'big').hex(), 'leg': leg,
-                    'family': rng.choice(['diagonal', 'mersenne', 'bitflip', 'workchains', 'mixed'])}
+                    'family': rng.choice(['diagonal', 'mersenne', 'bitflip', 'workchains', 'mixed']), 'irregular': rng.random() < 0.5}
         return {'wc': rng.choice([-1, 0, 0, -128, 127, rng.randint(-128, 127)]), 'acc': bytes(rng.getrandbits(8) for _ in range(32)).hex(), 'leg': leg,
                 'variants': sorted(rng.sample(range(8), 3))}
 
@@ -487,8 +487,30 @@ class AddrWireWorld(World):
         finally:
             ctx.keep_history = False
 
+    IRREGULAR = ['0:' + 'ab' * 33, '-1:' + 'cd' * 40, '0:' + 'ef' * 31, '5:' + '0' * 63, '0:', '127:' + 'ff' * 64]
+
+    def _irregular(self, ctx, op):
+        """Earlier in the same process something irregular was handled: a raw text whose account part is not 32 bytes long (the raw
+        parser does not insist), parsed and - if it was accepted - logged and rendered.  Whatever that does, it is over; the
+        addresses that follow are ordinary ones."""
+        ctx.op(op)
+        ctx.fault('irregular-address-handled-earlier-in-process')
+        for text in self.IRREGULAR[op['k'] % len(self.IRREGULAR):][:2]:
+            ok, a = call(Address, text)
+            if ok:
+                call(repr, a)
+                call(a.to_str)
+                call(a.to_str, True, False, False, True)
+                call(a.to_str, False)
+                call(hash, a)
+
     def run(self, ctx):
         cfg = ctx.cfg
+        self._pre = []
+        if cfg.get('irregular'):
+            pre = {'op': 'irregular', 'k': int(cfg['acc'][:2], 16)}
+            self._irregular(ctx, pre)
+            self._pre = [pre]
         if cfg['leg'] == 'crowd':
             return self.run_crowd(ctx)
         if cfg['leg'] == 'checksum':
@@ -551,6 +573,12 @@ class AddrWireWorld(World):
             self._check(ctx, aop, rop)
 
     def replay(self, ctx, ops):
+        self._pre = []
+        for o in ops:
+            if o['op'] == 'irregular':
+                self._irregular(ctx, o)
+                self._pre = [o]
+        ops = [o for o in ops if o['op'] != 'irregular']
         if any(o['op'] == 'member' for o in ops):
             return self.run_crowd(ctx, ops)
         a = next((o for o in ops if o['op'] == 'address'), None)
@@ -741,6 +769,6 @@ class AddrWireWorld(World):
         if getattr(ctx, 'keep_history', False):
             return self.V(ctx, invariant, opkind, klass + '/after-related-addresses', msg)
         keep = list(ctx.ops)
-        ctx.ops = list(ops)
+        ctx.ops = list(getattr(self, '_pre', [])) + list(ops)
         self.V(ctx, invariant, opkind, klass, msg)
         ctx.ops = keep
